@@ -126,7 +126,8 @@ def name_cases(draw):
 def operand_cases(draw):
     prog = draw(programs(max_ops=3))
     extra = draw(st.sampled_from([None, None, ["transform_identity", 1], ["transform_identity", 2], ["transform_derived", 2],
-                                  ["transform_identity_existing_dim", 1], ["transform_captured_existing_dim", 1]]))
+                                  ["transform_identity_existing_dim", 1], ["transform_captured_existing_dim", 1],
+                                  ["join_scalar_coord", 0], ["join_scalar_coord", 1], ["join_scalar_coord_match", 1]]))
     return {"kind": "operands", "prog": prog, "extra": extra}
 
 
@@ -351,7 +352,10 @@ def run_operands(c) -> tuple[bool, list[str]]:
         except Violation:
             raise
         except Exception as e:
-            # C13 owns the question whether the operation itself works; here only operand integrity matters
+            # C13 owns the question whether the operation itself works; here only operand integrity matters -- also when it raises
+            for o in others:
+                existing.append(o)
+            check(op)
             return False, classes + ["op_raised_elsewhere"]
         for o in others:
             existing.append(o)
@@ -370,6 +374,24 @@ def run_operands(c) -> tuple[bool, list[str]]:
         ones = [str(d) for d in a.nodes.dims if a.nodes.sizes[d] == 1]
         dname = ones[0] if (ones and k.endswith("existing_dim")) else "tdim"
         captured = a
+        if k.startswith("join_scalar_coord"):
+            # two selections that both keep the selected coordinate as a scalar coordinate (select's default drop=False), with equal
+            # (n == 0) or different (n == 1) values, joined along a new dimension -- directly, or with match_coord_values
+            lab = [str(d) for d in a.nodes.dims if str(d) in a.nodes.coords and a.nodes.sizes[d] >= 2]
+            if not lab:
+                return nt, classes + ["extra_not_applicable"]
+            vals = list(a.nodes.coords[lab[0]].values)
+            a1 = a.select({lab[0]: vals[0]})
+            a2 = a.select({lab[0]: vals[n]})
+            existing.append((a1, _snap(a1), "first selection"))
+            existing.append((a2, _snap(a2), "second selection (operand of join)"))
+            try:
+                res = a1.join(a2, "jdim", match_coord_values=k.endswith("match"))
+                classes.append(k + ":joined")
+            except Exception:
+                classes.append(k + ":raised")  # xarray refuses conflicting scalar coordinates; the operands must be intact all the same
+            check(ex)
+            return True, sorted(set(classes))
         try:
             if k == "transform_identity_existing_dim":
                 res = a.transform(lambda act, j: act, params, dname)
